@@ -77,6 +77,10 @@ def facts_dir(config="default", repo=REPO):
     d = os.path.join(CACHE, "facts", f"{key}-{config}")
     info = {"tree_key": key, "source_files_hashed": nfiles, "config": config, "cached": True}
     if _complete(d):
+        try:
+            os.utime(d)
+        except OSError:
+            pass
         return d, info
     lock = open(os.path.join(CACHE, "extract.lock"), "w")
     fcntl.flock(lock, fcntl.LOCK_EX)
@@ -103,7 +107,9 @@ def _gc(root, keep, maxn=6):
         ds = sorted((os.path.join(root, x) for x in os.listdir(root)), key=os.path.getmtime)
     except FileNotFoundError:
         return
-    ds = [x for x in ds if x != keep]
+    # never evict what another process may be loading right now: only entries unused for 20 minutes are candidates
+    now = time.time()
+    ds = [x for x in ds if x != keep and now - os.path.getmtime(x) > 1200]
     for x in ds[: max(0, len(ds) - maxn)]:
         shutil.rmtree(x, ignore_errors=True)
 
